@@ -121,13 +121,23 @@ func VerifC18SetTiming(rttMin, rttMax, ttlMax time.Duration) {
 	rttMinEstimate, rttMaxEstimate, ttlLimit = rttMin, rttMax, ttlMax
 }
 
-// VerifC18BeginSync does what synchronise() does before syncWithPeer: fresh
-// queue, cancel channel, master peer, FullSync, result offset origin+1.
+// VerifC18BeginSync does what synchronise() does before syncWithPeer, on the
+// downloader's one queue object: Reset of queue and peers, cancel channel,
+// master peer, FullSync, then syncWithPeer's Prepare(origin+1).
 func (d *Downloader) VerifC18BeginSync(master string, origin uint64, cacheItems int) {
 	blockCacheItems = cacheItems
-	d.queue = newQueue()
 	d.queue.Reset()
 	d.peers.Reset()
+	for _, ch := range []chan bool{d.bodyWakeCh, d.receiptWakeCh} {
+		select {
+		case <-ch:
+		default:
+		}
+	}
+	select {
+	case <-d.bodyCh:
+	default:
+	}
 	d.cancelLock.Lock()
 	d.cancelCh = make(chan struct{})
 	d.cancelPeer = master
